@@ -379,7 +379,7 @@ def run(ctx):
         check_case(case, ctx)
 
     ctx.extra["tolerance"] = "atol 2e-5*k*max(1,M) + rtol 2e-4 (k log-density terms of magnitude <= M)"
-    ctx.run_hypothesis(case_strategy(), chk, ctx.pick(60, 400), salt="main")
+    ctx.run_hypothesis(case_strategy(), chk, ctx.pick(60, 300), salt="main")
 
 
 def replay(ctx, case):
